@@ -74,6 +74,22 @@ def judge(case):
             v.append(core.viol("C04/pure_limit/" + model, "ln gamma of the nearly pure component is not finite: %r" % (seq,)))
         elif not (seq[1] <= 0.2 * seq[0] + 1e-7 and seq[2] <= 0.2 * seq[1] + 1e-7 and seq[3] <= 0.2 * seq[2] + 1e-7):
             v.append(core.viol("C04/pure_limit/" + model, "|ln gamma_%d| does not vanish as the component becomes pure: %r at 1e-2, 1e-3, 1e-4, 0 from pure" % (which + 1, seq)))
+        # partial pressures at the exactly pure composition: the absent component contributes exactly nothing, the present
+        # one x * gamma * Psat with x = 1 (both bases)
+        for basis in ("molar", "weight"):
+            st_p, pp_ = core.call(U.pyvaporation.get_partial_pressures, t, mix, U.Composition(p=x, type=basis), model)
+            if st_p != "ok":
+                continue
+            absent, present = (1, 0) if x == 1.0 else (0, 1)
+            comp_p = mix.first_component if present == 0 else mix.second_component
+            gp = ACT(temperature=t, mixture=mix, composition=U.Composition(p=x, type="molar"), calculation_type=model)
+            want = float(gp[present]) * float(comp_p.get_vapor_pressure(t))
+            if not math.isfinite(float(gp[absent])):
+                continue  # an infinite activity coefficient of the absent component (K1 overflow) times zero is NaN: not judged
+            if float(pp_[absent]) != 0.0 or (math.isfinite(want) and not core.close(float(pp_[present]), want, core.ULP)):
+                v.append(core.viol("C04/partial_pressure/pure/" + model, "pure composition x1=%r (%s): partial pressures %r, expected 0 for the absent component and gamma*Psat = %r for the present one" % (
+                    x, basis, (float(pp_[0]), float(pp_[1])), want)))
+                break
         return core.result("limit", digest=core.digest_of([core.fhex(z) for z in seq]), viol=v, sample={"abs_ln_gamma": seq})
     g = ACT(temperature=t, mixture=mix, composition=U.Composition(p=x, type="molar"), calculation_type=model)
     g = (float(g[0]), float(g[1]))
